@@ -27,7 +27,7 @@ import (
 
 func VerifC19_PassHonoursWeights() {
 	w := pwNew(&opopts.Options{})
-	offers := []pwOffer{{"zone-1", v1.CapacityTypeOnDemand, 1, true}, {"zone-2", v1.CapacityTypeOnDemand, 1, true}}
+	offers := []pwOffer{{zone: "zone-1", ct: v1.CapacityTypeOnDemand, price: 1, available: true}, {zone: "zone-2", ct: v1.CapacityTypeOnDemand, price: 1, available: true}}
 	w.addType("it-m", resource.MustParse("4"), offers)
 	w.addType("it-l", resource.MustParse("16"), offers)
 
